@@ -314,7 +314,94 @@ def crowd_case(case):
     return 4 * n
 
 
+def late_install_multi_case(case):
+    """A warm-up system registers the collector during timestep k of ONE model.execute(n) call: from timestep k+1 on the
+    collector records every timestep (whether it already runs in timestep k itself is left open)."""
+    reset_library()
+    n, k, incl = case['n'], case['k'], case['incl']
+    m = new_model(seed=1)
+    for key, val in (('a', 10), ('b', 30)):
+        a = Core.Agent(key, m)
+        a.add_component(V(a, m, val))
+        m.environment.add_agent(a)
+    col = AgentCollector(m, lambda a: a[V].value, None, incl)
+
+    class Warmup(Core.System):
+        def execute(self):
+            if self.model.systems.timestep == k:
+                self.model.systems.add_system(col)
+            if self.model.systems.timestep == k + 1 and case.get('leaver'):
+                self.model.environment.remove_agent('a')
+    m.systems.add_system(Warmup('warmup', m, priority=5))
+    if case.get('split') and k > 0:
+        m.execute(k)            # the call in which the collector is registered starts at timestep k
+        m.execute(n - k)
+    else:
+        m.execute(n)
+
+    def rec(t):
+        r = {'timestep': t} if incl else {}
+        if not (case.get('leaver') and t >= k + 1):
+            r['a'] = 10
+        r['b'] = 30
+        return r
+    must = [rec(t) for t in range(k + 1, n)]
+    got = list(col.records)
+    if got != must and got != [rec(k)] + must:
+        raise Violation(f'collector registered by a system during timestep {k} of model.execute({n}): records differ '
+                        f'from one record per timestep from {k + 1} on', expected=must, observed=got)
+    return len(got)
+
+
+def file_fault_case(case):
+    """The output directory is taken away before one timestep and restored after it: a flush that fails there raises to
+    the driver, which carries on.  Whatever happens, text in the file + records still held = everything collected."""
+    reset_library()
+    counts, wc, fail_t = case['counts'], case['write_count'], case['fail_t']
+    tmp = tempfile.mkdtemp(prefix='c17f-')
+    try:
+        d = os.path.join(tmp, 'out')
+        os.mkdir(d)
+        path = os.path.join(d, 'log.txt')
+        model = new_model(seed=1)
+        collected = []
+
+        class Col(FileCollector):
+            def collect(self):
+                t = self.model.systems.timestep
+                for i in range(counts[min(t, len(counts) - 1)]):
+                    rec = f't{t}r{i}#{len(collected)};'
+                    self.records.append(rec)
+                    collected.append(rec)
+
+        col = Col('fc', model, path, write_count=wc)
+        model.systems.add_system(col)
+        failures = 0
+        for step in range(len(counts) + 2):
+            away = step == fail_t
+            if away:
+                os.rename(d, d + '.away')
+            try:
+                model.execute()
+            except OSError:
+                failures += 1
+            finally:
+                if away:
+                    os.rename(d + '.away', d)
+            text = open(path).read() if os.path.exists(path) else ''
+            whole = text + ''.join(col.records)
+            if whole != ''.join(collected):
+                raise Violation(f'after step {step} (output directory missing during step {fail_t}, {failures} failed '
+                                f'flushes so far): file text + held records differs from everything collected (records '
+                                f'per collection {counts}, write_count {wc})', expected=''.join(collected), observed=whole)
+        return (failures, len(collected))
+    finally:
+        shutil.rmtree(tmp, ignore_errors=True)
+
+
 def file_case(case):
+    if 'fail_t' in case:
+        return file_fault_case(case)
     reset_library()
     counts, wc, win = case['counts'], case['write_count'], WINDOWS[case['win']]
     tmp = tempfile.mkdtemp(prefix='c17-')
@@ -404,6 +491,21 @@ def run(ctx):
         return
     ctx.leg('crowd', note='agent collector over 1200 agents, 4 timesteps, agents leaving and joining in between')
     T, wcs = (5, range(4)) if quick else (7, range(6))
+    nl = 0
+    for n in (3, 6):
+        for k in range(n):
+            for incl in (False, True):
+                for leaver in (False, True):
+                    for split in (False, True):
+                        case = {'leg': 'late_install_multi', 'n': n, 'k': k, 'incl': incl, 'leaver': leaver, 'split': split}
+                        ctx.traces += 1
+                        nl += 1
+                        try:
+                            ctx.transitions += hbfs._guard(late_install_multi_case, case)
+                        except Violation as v:
+                            ctx.report(case, v)
+                            return
+    ctx.leg('late_install_multi', cases=nl)
     cases = [{'leg': 'file', 'counts': list(c), 'write_count': wc, 'win': wi}
              for c in itertools.product((0, 1, 2), repeat=T) for wc in wcs for wi in range(len(WINDOWS))]
     for fm in ('at', 'a+'):
@@ -414,6 +516,11 @@ def run(ctx):
         for wc in (0, 1, 2):
             for wi in range(len(WINDOWS)):
                 cases.append({'leg': 'file', 'counts': counts, 'write_count': wc, 'win': wi, 'own_writer': True})
+    # a flush that fails (output directory missing during one timestep), at every timestep
+    for counts in ([1, 2, 0, 1, 2], [2, 2, 2, 2, 2]):
+        for wc in (0, 1, 2):
+            for fail_t in range(6):
+                cases.append({'leg': 'file', 'counts': counts, 'write_count': wc, 'win': 0, 'fail_t': fail_t})
     # large backlogs: many records per collection, flush sizes at and around powers of two
     for per in (8, 16, 64, 63, 65):
         for wc in (0, 1, 3, 7):
@@ -441,6 +548,9 @@ def run(ctx):
 def replay(case):
     if case['leg'] == 'crowd':
         hbfs._guard(crowd_case, case)
+        return
+    if case['leg'] == 'late_install_multi':
+        hbfs._guard(late_install_multi_case, case)
         return
     if case['leg'] == 'file':
         hbfs._guard(file_case, case)
